@@ -3,7 +3,7 @@ C04 — helper lemmas, part 6: lambda nodes and the groups that share them.
 `evalN_pres`: a generic "the state only moves along R" induction over the evaluator; instances
 `evalN_stateless` (an expression without stateful functions leaves the whole state as it was) and
 `evalN_lams_fixed` (when no lambda node has a stateful body, no lambda node's state ever changes).
-`World.run` (what the code does since dcda92d: every `CopyReset` copy its own functions, lambda nodes and the node
+`World.run` (what the code does since 8ed14ac: every `CopyReset` copy its own functions, lambda nodes and the node
 evaluators above them; everything else shared) against `refRun` (every group its own histories): they agree for every
 interleaving of the groups (`world_agree`); `mix_inv`: what a copy sees is a cache the evaluator can be in.
 -/
